@@ -126,6 +126,11 @@ struct SimHost<'a> {
     mem_violation: Option<String>,
     gap_violation: Option<String>,
     suspensions: u32,
+    /// sum of all charges made through `tick_energy` / of those made for memory growth
+    tick_total:  u64,
+    mem_ticks:   u64,
+    /// what the shadow-counting twin of the program reported through `env.count`
+    counted:     u64,
 }
 
 fn mix(mut x: u64) -> u64 {
@@ -156,6 +161,9 @@ impl<'a> SimHost<'a> {
             mem_violation: None,
             gap_violation: None,
             suspensions: 0,
+            tick_total: 0,
+            mem_ticks: 0,
+            counted: 0,
         }
     }
 
@@ -198,7 +206,14 @@ impl Host<ArtifactNamedImport> for SimHost<'_> {
             self.announced += n as u64;
             self.log.push(Ev::AccountMem(n));
             // growth is paid for like any other charge
+            self.mem_ticks += n as u64 * 100;
             return self.tick_energy(n as u64 * 100).map(|_| None);
+        }
+        if f.matches("env", "count") {
+            // shadow counting twin: not a host call of the program, no ordinal, no log entry
+            let c = unsafe { stack.pop_u64() };
+            self.counted += c;
+            return Ok(None);
         }
         self.check_memory(memory.len());
         let name = f.get_item_name();
@@ -292,6 +307,7 @@ impl Host<ArtifactNamedImport> for SimHost<'_> {
             anyhow::bail!("out of energy");
         }
         self.energy -= energy;
+        self.tick_total += energy;
         self.log.push(Ev::Tick(energy));
         Ok(())
     }
@@ -387,9 +403,11 @@ pub fn generate(rng: &mut Rng, _tier: Tier, focus: MFocus) -> MPlan {
     };
     let spin = metering != 0 && rng.chance(1, 4);
     let validation_v1 = rng.coin();
+    let calm_locals = focus == MFocus::Metering && rng.chance(2, 3);
     let module = progen::gen_module(rng, progen::GenOpts {
-        sign_ext:   validation_v1,
+        sign_ext: validation_v1,
         allow_spin: spin,
+        calm_locals,
     });
     let ref_budget = if progen::uses_spin(&module) {
         Some(rng.range(50, 4000))
@@ -540,6 +558,74 @@ pub fn execute(plan: &MPlan, rec: &mut Recorder) -> Option<Violation> {
                 "determinism/double-run",
                 format!("two identical executions differ: {:?} vs {:?}; {}", o0, o, first_diff(&h0.log, &h.log)),
             );
+        }
+    }
+
+    // 2b. the cost schedule summed over the executed instructions (shadow-counting twin, run unmetered)
+    if metering_focus && metered && plan.ref_budget.is_none() && !progen::uses_spin(&plan.module) && progen::calm_locals(&plan.module) {
+        let twin = wasm::emit_counted(&plan.module, plan.metering);
+        let tart = match utils::instantiate::<ArtifactNamedImport, _>(cfg, &AllowEnv, &twin) {
+            Ok(i) => i.artifact,
+            Err(e) => {
+                if plan.shrunk {
+                    return None;
+                }
+                return Some(Violation::new("harness", "harness/twin-rejected", format!("counting twin rejected by the validator: {:#}", e), 0));
+            }
+        };
+        let mut ht = SimHost::new(None, HUGE, code_len, false);
+        let ot = drive(&tart, &mut ht, &args, None);
+        let charged = h0.tick_total - h0.mem_ticks;
+        let same_class = match (&o0, &ot) {
+            (Outcome::Success { result: a, mem_digest: d1, mem_len: l1 }, Outcome::Success { result: b, mem_digest: d2, mem_len: l2 }) => a == b && d1 == d2 && l1 == l2,
+            (Outcome::Trap(_), Outcome::Trap(_)) => true,
+            (Outcome::FrameLimit, Outcome::FrameLimit) => true,
+            _ => false,
+        };
+        let hosts = |l: &[Ev]| l.iter().filter(|e| matches!(e, Ev::Host { .. })).cloned().collect::<Vec<_>>();
+        if !same_class || hosts(&h0.log) != hosts(&ht.log) {
+            // The twin visibly took another path: the programs are not equivalent for the engine
+            // (a conformance matter, C01), so there is nothing to compare charges with. No verdict.
+            rec.probe("cost_twin_diverged");
+            if std::env::var("VERIF_TWIN_AS_VIOLATION").is_ok() {
+                return Some(Violation::new(
+                    "twin",
+                    "debug/twin-diverged",
+                    format!("the counting twin took a different path: {:?} vs {:?}; {}", ot, o0, first_diff(&hosts(&ht.log), &hosts(&h0.log))),
+                    0,
+                ));
+            }
+        } else {
+            rec.probe("cost_twin_compared");
+            rec.log_u64(ht.counted);
+            if let Outcome::Success { .. } = o0 {
+                if charged != ht.counted {
+                    return v(
+                        "cost-schedule",
+                        if charged < ht.counted { "cost/undercharged" } else { "cost/overcharged" },
+                        format!(
+                            "the run was charged {} for its instructions, but the cost schedule (V{}) summed over the executed instructions gives {}",
+                            charged,
+                            plan.metering - 1,
+                            ht.counted
+                        ),
+                    );
+                }
+            } else {
+                rec.probe("cost_twin_trap");
+                if charged < ht.counted {
+                    return v(
+                        "cost-schedule",
+                        "cost/undercharged-at-trap",
+                        format!(
+                            "the run trapped after being charged {} for its instructions, but the instructions executed up to the trap cost {} (schedule V{}): work was done before it was paid for",
+                            charged,
+                            ht.counted,
+                            plan.metering - 1
+                        ),
+                    );
+                }
+            }
         }
     }
 
@@ -751,4 +837,31 @@ pub fn shrink(plan: &MPlan) -> Vec<MPlan> {
         out.push(p);
     }
     out
+}
+
+/// Debugging aid: run the plan's module unmetered, metered (V0, V1) and as counting twins; print the host calls.
+pub fn debug_run(plan: &MPlan) {
+    let cfg = if plan.validation_v1 { ValidationConfig::V1 } else { ValidationConfig::V0 };
+    let args = [Value::I32(plan.arg0), Value::I64(plan.arg1)];
+    let bytes = wasm::emit(&plan.module);
+    std::fs::write("/var/tmp/dbg_module.wasm", &bytes).ok();
+    for (label, art) in [
+        ("unmetered", utils::instantiate::<ArtifactNamedImport, _>(cfg, &AllowEnv, &bytes).map(|i| i.artifact)),
+        ("metered V0", utils::instantiate_with_metering::<ArtifactNamedImport>(cfg, CostConfigurationV0, &AllowEnv, &bytes).map(|i| i.artifact)),
+        ("metered V1", utils::instantiate_with_metering::<ArtifactNamedImport>(cfg, CostConfigurationV1, &AllowEnv, &bytes).map(|i| i.artifact)),
+        ("twin V0", utils::instantiate::<ArtifactNamedImport, _>(cfg, &AllowEnv, &wasm::emit_counted(&plan.module, 1)).map(|i| i.artifact)),
+        ("twin V1", utils::instantiate::<ArtifactNamedImport, _>(cfg, &AllowEnv, &wasm::emit_counted(&plan.module, 2)).map(|i| i.artifact)),
+    ] {
+        match art {
+            Err(e) => println!("{}: rejected {:#}", label, e),
+            Ok(art) => {
+                let mut h = SimHost::new(None, HUGE, 1 << 20, false);
+                let o = drive(&art, &mut h, &args, None);
+                println!("{}: {:?} charged {} (mem {}) counted {}", label, o, h.tick_total, h.mem_ticks, h.counted);
+                for e in h.log.iter().filter(|e| matches!(e, Ev::Host { .. })) {
+                    println!("    {:?}", e);
+                }
+            }
+        }
+    }
 }
